@@ -203,7 +203,7 @@ func delText(op WOp, order []string) string {
 }
 
 // buildOps derives the model operations of a workload from the dry run's log.
-func buildOps(w *Workload, rl *runLog) (ops []mop, hist []string, accepted map[int][]WSample) {
+func buildOps(w *Workload, rl *runLog) (ops []mop, hist []string, accepted map[int][]WSample, degraded bool) {
 	ids, infos := blockIDs(rl)
 	accepted = map[int][]WSample{}
 	semIdx := 0
@@ -261,6 +261,12 @@ func buildOps(w *Workload, rl *runLog) (ops []mop, hist []string, accepted map[i
 				switch h.Kind {
 				case kWalNewSeg:
 					flush()
+					if lastCut == math.MinInt64 {
+						// the WAL was truncated although no head block appeared: the block came out
+						// empty (everything in its range was deleted); its range is not in the log
+						degraded = true
+						lastCut = 0
+					}
 					ops = append(ops, mop{API: api, Text: fmt.Sprintf("otrunc %d", lastCut), RenameHit: -1})
 				case kWblNewSeg:
 					flush()
@@ -321,7 +327,7 @@ func buildOps(w *Workload, rl *runLog) (ops []mop, hist []string, accepted map[i
 			}
 		}
 	}
-	return ops, hist, accepted
+	return ops, hist, accepted, degraded
 }
 
 func semKinds(rl *runLog) []int {
@@ -654,7 +660,13 @@ func parent(f gallina.Flags) {
 		for i, e := range ref.Errs {
 			meta.GoViol = append(meta.GoViol, gallina.GoViolation{ID: fmt.Sprintf("%s/op%d", wname, i), Shape: "operation-failed", What: fmt.Sprintf("workload %s: op %d (%s) returned an error: %s", w.Name, i, w.Ops[i].Kind, e)})
 		}
-		ops, hist, _ := buildOps(&w, ref)
+		ops, hist, _, degraded := buildOps(&w, ref)
+		if degraded && !w.NoModel {
+			// a head compaction with an empty result: the model operations cannot be derived from
+			// the log; the cases of this workload are judged by `holds` only
+			w.NoModel = true
+			meta.Hit("no-model:empty-head-block")
+		}
 		kinds := semKinds(ref)
 		mixedFrom := -1
 		for _, o := range ops {
